@@ -43,7 +43,17 @@ pub enum Op {
     SheetInsertCol { sheet: usize, col: u32, n: u32 },
     BookInsertRow { sheet: usize, row: u32, n: u32 },
     BookRemoveCol { sheet: usize, col: u32, n: u32 },
-    ColWidth { sheet: usize, col: u32, w: f64 },
+    ColWidth {
+        sheet: usize,
+        col: u32,
+        w: f64,
+        #[serde(default)]
+        best_fit: bool,
+    },
+    /// copy_range / move_range: the cells of `range` pasted `rows` down and `cols` right
+    CopyRange { sheet: usize, range: String, rows: i32, cols: i32, mv: bool },
+    /// materialise every sheet (read_sheet_collection)
+    ReadAllSheets,
     RowHeight { sheet: usize, row: u32, h: f64 },
     Table { sheet: usize, name: String, top: u32 },
     CommentRich { sheet: usize, cell: String, author: String, parts: Vec<String> },
@@ -93,6 +103,8 @@ impl Op {
             Op::BookInsertRow { .. } => "book_insert_row",
             Op::BookRemoveCol { .. } => "book_remove_col",
             Op::ColWidth { .. } => "col_width",
+            Op::CopyRange { .. } => "copy_range",
+            Op::ReadAllSheets => "read_all_sheets",
             Op::RowHeight { .. } => "row_height",
             Op::Table { .. } => "table",
             Op::CommentRich { .. } => "comment_rich",
@@ -326,9 +338,20 @@ pub fn apply(book: &mut Spreadsheet, op: &Op) -> bool {
                 Some(())
             }
         }
-        Op::ColWidth { sheet, col, w } => sheet_mut(book, *sheet).map(|s| {
-            s.get_column_dimension_by_number_mut(col).set_width(*w);
+        Op::ColWidth { sheet, col, w, best_fit } => sheet_mut(book, *sheet).map(|s| {
+            s.get_column_dimension_by_number_mut(col).set_width(*w).set_best_fit(*best_fit);
         }),
+        Op::CopyRange { sheet, range, rows, cols, mv } => sheet_mut(book, *sheet).map(|s| {
+            if *mv {
+                s.move_range(range, rows, cols);
+            } else {
+                s.copy_range(range, rows, cols);
+            }
+        }),
+        Op::ReadAllSheets => {
+            book.read_sheet_collection();
+            Some(())
+        }
         Op::RowHeight { sheet, row, h } => sheet_mut(book, *sheet).map(|s| {
             s.get_row_dimension_mut(row).set_height(*h);
         }),
@@ -646,7 +669,11 @@ pub fn gen_cell_op(rng: &mut Rng, cfg: &GenCfg, tag: &str) -> Op {
                 Op::SetBlank { sheet, cell }
             }
         }
-        6 => match rng.usize(10) {
+        6 => match rng.usize(13) {
+            // equal widths on neighbouring columns are common; best-fit is a flag of its own
+            10 => Op::ColWidth { sheet, col: 1 + rng.below(8) as u32, w: [12.0, 12.0, 20.5, 9.140625][rng.usize(4)], best_fit: rng.chance(1, 2) },
+            11 => Op::RowHeight { sheet, row: 1 + rng.below(12) as u32, h: [15.0, 30.0, 30.0, 12.75][rng.usize(4)] },
+            12 => Op::CopyRange { sheet, range: ["A1:B3", "A1:C1", "B1:B12", "A3:AA4"][rng.usize(4)].to_string(), rows: [0, 3, 12, 14, 20][rng.usize(5)], cols: [0, 1, 4][rng.usize(3)], mv: rng.chance(1, 3) },
             7 => Op::RowStyle { sheet, row: 1 + rng.below(12) as u32, k: rng.below(3) as u8 },
             8 => Op::ColStyle { sheet, col: 1 + rng.below(8) as u32, k: rng.below(3) as u8 },
             9 => Op::Image { sheet, cell, name: ["logo.png", "logo.png", "pic 1.png", "é.png", "a&b.png"][rng.usize(5)].to_string(), blue: rng.chance(1, 2) },
